@@ -425,6 +425,13 @@ func checkProcessVesting(P *core.Program, R *core.Report) {
 				deduct = c
 			}
 		}
+		// or directly on the loaded record: commitments.SubClaimed(NewCoin(denom, amount))
+		if calleeMatches(P, c, "x/commitment/types.Commitments.SubClaimed") {
+			args := c.Common().Args
+			if p := ff.PolyOf(args[len(args)-1]); p.Equal(ff.PolyOf(amount)) {
+				deduct = c
+			}
+		}
 	}
 	total, claimed, start := false, false, false
 	var totalSt ssa.Instruction
